@@ -14,10 +14,11 @@ Lbl(x) == hist' = Append(hist, x)
 Op(a) == \/ (Create(a) /\ Lbl(<<"create", a>>)) \/ (Write(a) /\ Lbl(<<"write", a>>)) \/ (Chmod(a) /\ Lbl(<<"chmod", a>>))
          \/ (Unlink(a) /\ Lbl(<<"unlink", a>>)) \/ (MoveOut(a) /\ Lbl(<<"moveout", a>>)) \/ (MoveIn(a) /\ Lbl(<<"movein", a>>))
          \/ \E b \in Names : Rename(a, b) /\ Lbl(<<"rename", a, b>>)
+OpFd == \/ (Open /\ Lbl(<<"open", fmark>>)) \/ (FdWrite /\ Lbl(<<"fdwrite">>)) \/ (Release /\ Lbl(<<"release">>))
 ReadAll == /\ buf = <<>> /\ out = NoEv /\ kq # <<>> /\ buf' = kq /\ kq' = <<>>
-           /\ UNCHANGED <<present, fmark, w2end, cookie, nops, tab, out, ring, ridx, evq, want, got>>
+           /\ UNCHANGED <<present, fmark, w2end, held, hgone, prepd, cookie, nops, tab, out, ring, ridx, evq, want, got>>
 GNext == \/ /\ ~Drained /\ (ReadAll \/ Handle \/ Send \/ Recv) /\ UNCHANGED hist
-         \/ /\ Drained /\ nops < GenSteps /\ \E a \in Names : Op(a)
+         \/ /\ Drained /\ nops < GenSteps /\ (OpFd \/ \E a \in Names : Op(a))
 GSpec == GInit /\ [][GNext]_gvars
 Emit == (nops = GenSteps /\ Drained) =>
           PrintT(<<"SCN", ToJson([hist |-> hist, want |-> [i \in 1..Len(want) |-> Ideal(i)]])>>)
